@@ -7,3 +7,5 @@ pub mod common;
 pub mod c06;
 mod gen_c06;
 mod c07;
+pub mod c05;
+mod gen_c05;
